@@ -134,7 +134,39 @@ func main() {
 	meta := pr.meta
 	meta.assumptions = append(append([]string{}, commonAssumptions...), meta.assumptions...)
 	if *tier == "thorough" && *mutant == "" {
+		// second build configuration: the rpctest tag (mailbox/crypto_rpctest.go)
+		tagNote := ""
+		if w2, err := LoadWorld(*repo, nil, "rpctest"); err != nil {
+			tagNote = "rpctest configuration does not load: " + err.Error()
+			c.fail("BUILD-TAG", "rpctest", 0, tagNote)
+		} else {
+			c2 := newChecker(w2, *prop, *tier)
+			func() {
+				defer func() {
+					if r := recover(); r != nil {
+						c2.fail("CHECKER-PANIC", fmt.Sprint(r), 0, "the checker panicked on the rpctest configuration")
+					}
+				}()
+				pr.run(c2)
+			}()
+			c2.applyFloors()
+			extra := 0
+			have := map[string]bool{}
+			for _, o := range c.Obls {
+				if o.Verdict != vOK {
+					have[o.Rule+"|"+o.Key] = true
+				}
+			}
+			for _, o := range c2.Obls {
+				if o.Verdict != vOK && !have[o.Rule+"|"+o.Key] {
+					extra++
+					c.add(o.Rule, o.Key, 0, o.Verdict, "[tags=rpctest] "+o.Detail+" @"+o.Pos)
+				}
+			}
+			tagNote = fmt.Sprintf("rpctest configuration: %d obligations, %d not discharged", len(c2.Obls), extra)
+		}
 		meta.extra = thoroughExtras(*repo, *verif, *prop, c)
+		meta.extra["build_configurations"] = []string{"default tags (amd64)", tagNote}
 	}
 	if *verbose {
 		for _, o := range c.Obls {
